@@ -139,6 +139,11 @@ package v0
 //@     | cast(*abci.Response_CheckTx, payload(res.Value)).CheckTx.Code != 0 &&
 //@     | cast(*abci.Request_CheckTx, payload(req.Value)).CheckTx.Tx == old(txOf(mem.recheckCursor)))
 //@     | ==> !shas(mem.txsMap, keyOf(old(txOf(mem.recheckCursor))))
+// ... and likewise when the post-check (if any) fails for it on recheck (postCheckErr is the local of the body).
+//@   ensures postchecked: (typeis(res.Value, *abci.Response_CheckTx) && typeis(req.Value, *abci.Request_CheckTx) &&
+//@     | postCheckErr != nil &&
+//@     | cast(*abci.Request_CheckTx, payload(req.Value)).CheckTx.Tx == old(txOf(mem.recheckCursor)))
+//@     | ==> !shas(mem.txsMap, keyOf(old(txOf(mem.recheckCursor))))
 //@   loop 1 invariant cur: mem.recheckCursor != nil && mem.recheckCursor.owner == mem.txs && memTx == cast(*mempoolTx, payload(mem.recheckCursor.Value))
 //@   loop 1 invariant same: mem.recheckCursor == old(mem.recheckCursor) || cast(*abci.Request_CheckTx, payload(req.Value)).CheckTx.Tx != old(txOf(mem.recheckCursor))
 
